@@ -386,3 +386,55 @@ class OverlapInline:
             for i in range(n1):
                 for j in range(n - n1):
                     M.eq("overlap_inline/asymmetric-is-block-of-union" + tag((i, j)), Sa[i, j], S[i, n1 + j])
+
+
+class ShellSetters:
+    """GeneralizedContractionShell: the coordinate-type tag is stored in its long form for every documented spelling
+    ('cartesian' / 'c' -> 'cartesian', 'spherical' / 'p' -> 'spherical'), anything else is rejected; the public
+    integral / evaluation routes choose by that tag, so a shell declared 'p' gives the same arrays as 'spherical'
+    and 'c' the same as 'cartesian' (checked on the real overlap, kinetic and point-charge wrappers, kernels inlined)."""
+
+    function = "gbasis.contractions.GeneralizedContractionShell.coord_type (setter) and the routes selected by it"
+
+    def shapes(self, tier):
+        return [dict(l=2), dict(l=1)] + ([dict(l=3)] if tier == "thorough" else [])
+
+    def run(self, shape, M):
+        from .coulomb import boys_stub
+
+        l = shape["l"]
+        m = M.mods
+        A, B = M.vec("A", 3), M.vec("B", 3)
+        ea, eb = M.vec("a", 1, "pos"), M.vec("b", 1, "pos")
+        da, db = M.vec("da", (1, 1), "pos"), M.vec("db", (1, 1), "pos")
+
+        def basis(t1, t2):
+            return [make_shell(M, l, A, da, ea, coord_type=t1), make_shell(M, 0, B, db, eb, coord_type=t2)]
+
+        for given, stored in (("cartesian", "cartesian"), ("c", "cartesian"), ("spherical", "spherical"), ("p", "spherical")):
+            sh = make_shell(M, l, A, da, ea, coord_type=given)
+            M.true("shell/coord_type/%s" % given, sh.coord_type == stored, "stored %r" % (sh.coord_type,))
+            sh.coord_type = given
+            M.true("shell/coord_type/%s/reassigned" % given, sh.coord_type == stored, "stored %r" % (sh.coord_type,))
+        sh = make_shell(M, l, A, da, ea)
+        for bad, exc in (("s", ValueError), ("pure", ValueError), ("Cartesian", ValueError), ("", ValueError), (None, TypeError), (0, TypeError)):
+            def set_bad(v=bad):
+                sh.coord_type = v
+            M.raises("shell/coord_type/rejects/%r" % (bad,), set_bad, exc)
+        M.true("shell/coord_type/unchanged-after-rejection", sh.coord_type == "cartesian", repr(sh.coord_type))
+        pc = m["gbasis.integrals.point_charge"]
+        pts, q = M.vec("R", (1, 3)), M.vec("q", 1)
+        with bind.patched((pc.PointChargeIntegral, "boys_func", staticmethod(boys_stub(M)))):
+            routes = {"overlap": lambda b: m["gbasis.integrals.overlap"].overlap_integral(b),
+                      "kinetic": lambda b: m["gbasis.integrals.kinetic_energy"].kinetic_energy_integral(b),
+                      "point_charge": lambda b: pc.point_charge_integral(b, pts, q)[:, :, 0]}
+            for name, f in routes.items():
+                for short, long_ in (("p", "spherical"), ("c", "cartesian")):
+                    got, ref = f(basis(short, "c")), f(basis(long_, "cartesian"))
+                    n = (2 * l + 1 if long_ == "spherical" else (l + 1) * (l + 2) // 2) + 1
+                    M.true("shell/route/%s/%s/shape" % (name, short), tuple(got.shape) == (n, n) == tuple(ref.shape), "%s vs %s" % (got.shape, ref.shape))
+                    if tuple(got.shape) != tuple(ref.shape):
+                        continue
+                    for i in range(n):
+                        for j in range(n):
+                            M.eq("shell/route/%s/%s%s" % (name, short, tag((i, j))), got[i, j], ref[i, j])
